@@ -157,8 +157,14 @@ func hC11GetOwnPropertyDescriptor(family int) {
 			if ok {
 				g = w.decode(got)
 			}
+			// representation: a data record whose value field is nil reads as undefined everywhere (valueProperty.get,
+			// valuePropToDescriptorObject), so it IS the value undefined
+			gv := g.value
+			if ok && g.kind == 1 && gv == nil {
+				gv = _undefined
+			}
 			flags := refAnd(g.e == (cE == refFlagTrue), g.c == (cC == refFlagTrue))
-			data := refAnd(g.kind == 1, refAnd(g.w == (cW == refFlagTrue), vC04SameValue(g.value, cV)))
+			data := refAnd(g.kind == 1, refAnd(g.w == (cW == refFlagTrue), vC04SameValue(gv, cV)))
 			acc := refAnd(g.kind == 2, refAnd(g.g == cG, g.s == cS))
 			body := refOr(refAnd(!accessor, data), refAnd(accessor, acc))
 			// F-C11-gopd-accessor-without-functions: {get: undefined, set: undefined} comes back as a data property
@@ -293,12 +299,23 @@ func H_C11_multilayer() {
 	}
 	trap1 := vChoice("inner.hasTrap", 2) == 1
 	trap2 := vChoice("outer.hasTrap", 2) == 1
+	// one arbitrary result for the layer that answers; the other layer's trap (which must not run) returns a fixed value
 	var r1, r2 vC11Val
 	b1, b2 := false, false
-	if isHas {
-		b1, b2 = vNondetBool("inner.trapResult"), vNondetBool("outer.trapResult")
-	} else {
-		r1, r2 = w.anyValue("inner.trapResult"), w.anyValue("outer.trapResult")
+	if trap1 || trap2 {
+		if isHas {
+			b := vNondetBool("trapResult")
+			b1, b2 = b, b
+			if trap2 {
+				b1 = !b
+			}
+		} else {
+			rv := w.anyValue("trapResult")
+			r1, r2 = rv, rv
+			if trap2 {
+				r1 = vC11Val{valueInt(12345), 1}
+			}
+		}
 	}
 	calls1, calls2 := 0, 0
 	cfg := func(v vC11Val, b bool, on bool, calls *int) *ProxyTrapConfig {
@@ -373,7 +390,12 @@ func H_C11_multilayer() {
 		violated = refAnd(refAnd(!t.c, t.g == 0), res.kind != 0)
 	}
 	vAssert("multilayer.get:TypeError<=>invariant-violated", out.panicked == violated)
-	vAssert("multilayer.get:returns-trap-result", refOr(out.panicked, gotV == res.v))
+	retOK := false
+	if !out.panicked && gotV != nil {
+		k := vC11KindOf(w, gotV)
+		retOK = k == res.kind && vC11SameValue(vC11Val{gotV, k}, res)
+	}
+	vAssert("multilayer.get:returns-trap-result", refOr(out.panicked, retOK))
 }
 
 func refB2I(b bool) int {
